@@ -73,26 +73,30 @@ class Cond(V):
 class Seq(V):
     """something with a length whose contents are not tracked: slices and str behind a fat pointer (by
     value), arrays, Vec, String, Box<[T]>, SmallVec"""
-    __slots__ = ("len", "elem", "items")
+    __slots__ = ("len", "elem", "items", "view")
 
-    def __init__(self, ln, elem=None, items=None):
+    def __init__(self, ln, elem=None, items=None, view=None):
         self.len = ln if isinstance(ln, Lin) else Lin.const(ln)
         self.elem = elem     # optional: type index of elements (for materialising reads)
         self.items = items   # None: elements unknown; EMPTY: no element yet; else a value summarising every element
+        self.view = view     # (buffer id, offset Lin): this slice is the window [offset, offset+len) of a tracked output buffer
 
     def vars(self, acc):
         acc.update(self.len.t)
         if isinstance(self.items, V):
             self.items.vars(acc)
+        if self.view is not None:
+            acc.update(self.view[1].t)
 
     def __repr__(self):
-        return "Seq(%r%s)" % (self.len, "" if self.items is None else ", items=%r" % (self.items,))
+        return "Seq(%r%s%s)" % (self.len, "" if self.items is None else ", items=%r" % (self.items,),
+                                "" if self.view is None else ", view=%s+%r" % self.view)
 
     def __eq__(self, o):
-        return isinstance(o, Seq) and self.len == o.len and self.items == o.items
+        return isinstance(o, Seq) and self.len == o.len and self.items == o.items and self.view == o.view
 
     def __hash__(self):
-        return hash(("seq", self.len, self.items))
+        return hash(("seq", self.len, self.items, self.view))
 
 
 class Empty(V):
